@@ -254,7 +254,7 @@ PROPS["C05"] = dict(
                  "proved over the reals: the theorems listed in Properties_C05.v; every other Jacobian is tested, not proved: the analytic Jacobian against forward differences (step 1e-30) of the same operation, both evaluated by manif's own templates in 100-digit arithmetic, and the double-precision Jacobian against the 100-digit one (tolerance 1e-5 relative; the property says about 1e-6)"],
 )
 
-P09_PAIRS = ['compose value with {Ja}', 'compose value with {Jb}', 'compose value with {Ja,Jb}', 'compose Ja alone = Ja with Jb', 'compose Jb alone = Jb with Ja', 'between value with {Ja}', 'between value with {Jb}', 'between value with {Ja,Jb}', 'between Ja alone = Ja with Jb', 'between Jb alone = Jb with Ja', 'rplus value with {Ja}', 'rplus value with {Jb}', 'rplus value with {Ja,Jb}', 'rplus Ja alone = Ja with Jb', 'rplus Jb alone = Jb with Ja', 'lplus value with {Ja}', 'lplus value with {Jb}', 'lplus value with {Ja,Jb}', 'lplus Ja alone = Ja with Jb', 'lplus Jb alone = Jb with Ja', 'rminus value with {Ja}', 'rminus value with {Jb}', 'rminus value with {Ja,Jb}', 'rminus Ja alone = Ja with Jb', 'rminus Jb alone = Jb with Ja', 'lminus value with {Ja}', 'lminus value with {Jb}', 'lminus value with {Ja,Jb}', 'lminus Ja alone = Ja with Jb', 'lminus Jb alone = Jb with Ja', 'act value with {Ja}', 'act value with {Jb}', 'act value with {Ja,Jb}', 'act Ja alone = Ja with Jb', 'act Jb alone = Jb with Ja', 'inverse value with J', 'log value with J', 'exp value with J', 'compose: outputs bound to blocks of a larger matrix write exactly those blocks', 'compose value with block outputs', 'rminus: outputs bound to blocks write exactly those blocks', 'rminus value with block outputs', 'operand X unchanged', 'operand Y unchanged', 'operand t unchanged', 'operand p unchanged', 'compose repeated after other calls', 'rminus repeated after other calls', 'log Jacobian repeated after other calls', 'Z=Z*Z', 'Z=Z.inverse()', 'Z*=Z', 'Z=Z.compose(Y)', 'Z=X.compose(Z)', 'Map += t', 'Map = Map.between(Y)', 't=t+t']
+P09_PAIRS = ['compose value with {Ja}', 'compose value with {Jb}', 'compose value with {Ja,Jb}', 'compose Ja alone = Ja with Jb', 'compose Jb alone = Jb with Ja', 'between value with {Ja}', 'between value with {Jb}', 'between value with {Ja,Jb}', 'between Ja alone = Ja with Jb', 'between Jb alone = Jb with Ja', 'rplus value with {Ja}', 'rplus value with {Jb}', 'rplus value with {Ja,Jb}', 'rplus Ja alone = Ja with Jb', 'rplus Jb alone = Jb with Ja', 'lplus value with {Ja}', 'lplus value with {Jb}', 'lplus value with {Ja,Jb}', 'lplus Ja alone = Ja with Jb', 'lplus Jb alone = Jb with Ja', 'rminus value with {Ja}', 'rminus value with {Jb}', 'rminus value with {Ja,Jb}', 'rminus Ja alone = Ja with Jb', 'rminus Jb alone = Jb with Ja', 'lminus value with {Ja}', 'lminus value with {Jb}', 'lminus value with {Ja,Jb}', 'lminus Ja alone = Ja with Jb', 'lminus Jb alone = Jb with Ja', 'act value with {Ja}', 'act value with {Jb}', 'act value with {Ja,Jb}', 'act Ja alone = Ja with Jb', 'act Jb alone = Jb with Ja', 'inverse value with J', 'log value with J', 'exp value with J', 'compose: outputs bound to blocks of a larger matrix write exactly those blocks', 'compose value with block outputs', 'rminus: outputs bound to blocks write exactly those blocks', 'rminus value with block outputs', 'operand X unchanged', 'operand Y unchanged', 'operand t unchanged', 'operand p unchanged', 'compose repeated after other calls', 'rminus repeated after other calls', 'log Jacobian repeated after other calls', 'Z=Z*Z', 'Z=Z.inverse()', 'Z*=Z', 'Z=Z.compose(Y)', 'Z=X.compose(Z)', 'Map += t', 'Map = Map.between(Y)', 't=t+t'] + [x for nm in ['between', 'rplus', 'lplus', 'lminus', 'act', 'tangent plus', 'inverse', 'log', 'exp'] for x in ['%s: outputs bound to blocks of a larger matrix write exactly those blocks' % nm, '%s value with block outputs' % nm]]
 P09 = dict(op="P09", pairs=P09_PAIRS, dtol=0.0, dscale=lambda c: 1.0)
 PROPS["C09"] = dict(
     vfiles=["Properties_C09.v"], level="proof",
@@ -557,6 +557,9 @@ def valid_ctor(g, gn):
             d = dict(c); d["op"] = "P13"; d["mask"] = "-"; return d
     raise RuntimeError("no valid constructor case")
 
+P13V_PAIRS = ["rejected exactly when | |rotation data| - 1 | >= eps (never with NDEBUG)",
+              "G(Eigen::Map<G>) validates like the coefficient constructor", "G(Eigen::Map<const G>) validates like the coefficient constructor",
+              "normalize() makes the data acceptable"]
 def gen_p13v(epsq):
     def f(g, gn):
         gd = corr.group(gn)
@@ -590,7 +593,7 @@ def c13_asserts(pid, P, tier, seed, log):
             for r in r2:
                 if r["impl"] == "build_failed": continue
                 outs = vcheck.parse_outs(r["impl"]); c = r["case"]; nv += 1
-                bad = [("exception", r["impl"][:80])] if outs is None else [(nm, "%s vs %s" % (fs(outs[2 * k][0]), fs(outs[2 * k + 1][0]))) for k, nm in enumerate(["rejected exactly when | |rotation data| - 1 | >= eps (never with NDEBUG)", "normalize() makes the data acceptable"]) if outs[2 * k] != outs[2 * k + 1]]
+                bad = [("exception", r["impl"][:80])] if outs is None else [(nm, "%s vs %s" % (fs(outs[2 * k][0]), fs(outs[2 * k + 1][0]))) for k, nm in enumerate(P13V_PAIRS) if outs[2 * k] != outs[2 * k + 1]]
                 for nm, why in bad:
                     raw.append(("pred", dict(group=c["group"], pred="P13V", scalar=sc, pair=nm, build="NDEBUG" if ndebug else "assert", _args=c["args"]),
                                 "%s: %s fails over %s (%s build): %s" % (c["group"], nm, sc, "NDEBUG" if ndebug else "assertion-enabled", why),
